@@ -1186,7 +1186,14 @@ func (g *JSGen) Stmt(depth int) string {
 				s = kw + " {x: " + a + ", [" + g.probe(`"y"`) + "]: " + b + " = " + e() + "} = " + g.objectLit(depth-1) + ";\n"
 			case 2:
 				if g.F.ObjectRest {
-					s = kw + " {x: " + a + ", ..." + b + "} = " + g.objectLit(depth-1) + ";\n"
+					// V8 (Node 20) bug: with an object rest pattern the getter of an EXCLUDED key of a literal that
+					// also has a computed key is invoked twice the first time the code runs
+					// (`var {x: a, ...z} = {["k"]: 1, get x() {…}}`): no accessors in the source of a rest pattern
+					saved := g.F.Getters
+					g.F.Getters = false
+					lit := g.objectLit(depth - 1)
+					g.F.Getters = saved
+					s = kw + " {x: " + a + ", ..." + b + "} = " + lit + ";\n"
 				} else {
 					s = kw + " [" + a + ", ..." + b + "] = " + g.arrayLit(depth-1) + ";\n"
 				}
